@@ -134,4 +134,59 @@ Proof.
   pose proof (feed_susp_q fuel m) as FC. destruct (feedF fuel m) as [m1 r]. cbn [fst snd] in *.
   destruct r; cbn [fst snd hd]; try discriminate; try (intros X; exact (FC X)); apply IH.
 Qed.
+
+(* ---------------------------------------------------------------- end() delivers the EOF token, last *)
+Notation eof_loopF := (@eof_loop S (list N) [] fq_next fq_peek (@app N) fid fq_run1 fl true tb simd sk).
+Notation tok_endF := (@tok_end S (list N) [] fq_next fq_peek (@app N) fid fq_run1 fl true tb simd ent c1 sk).
+Hypothesis Heof : forall s, eof_ok (t_eof tb s) = true.
+
+Definition newest_is_eof (m : M) : Prop := match mout m with (TEof, _, _) :: _ => True | _ => False end.
+
+(* an EOF arm (no reads, [eof_ok]) answers "suspend" only through its Eof terminator, which has just emitted TEof *)
+Lemma exec_eof_last : forall b c run (m : M), eof_ok b = true ->
+  snd (execF true b c run m) = SSuspend -> newest_is_eof (fst (execF true b c run m)).
+Proof.
+  induction b as [rk k IH|set sm krun IHr kchar IHc|p e y IHy n IHn|k y IHy n IHn|k rest IH|t];
+    intros c run m Hb; cbn [exec]; cbn [eof_ok] in Hb; try discriminate Hb.
+  - apply andb_prop in Hb. destruct Hb as [Hb1 Hb2]. destruct (ceval_cond sk k c m); [apply IHy|apply IHn]; assumption.
+  - apply andb_prop in Hb. destruct Hb as [_ Hb2]. apply IH; exact Hb2.
+  - destruct t; cbn [do_term fst snd]; try discriminate; try (intros X; exfalso; exact (ect_not_susp _ X)).
+    + destruct k; cbn [do_term]; intros X; exfalso; exact (ect_not_susp _ X).
+    + intros _. unfold newest_is_eof. destruct m as [cf q o kk]. cbn. exact I.
+Qed.
+
+Theorem eof_loop_last : forall fuel (m : M), snd (eof_loopF fuel m) = SSuspend -> newest_is_eof (fst (eof_loopF fuel m)).
+Proof.
+  induction fuel as [|f IH]; intros m; cbn [eof_loop]; [discriminate|].
+  pose proof (exec_eof_last (t_eof tb (st (mc m))) 0 [] m (Heof _)) as E.
+  destruct (execF true (t_eof tb (st (mc m))) 0 [] m) as [m1 r]. cbn [fst snd] in *.
+  destruct r; cbn [fst snd]; try discriminate; try (apply IH); try (intros _; apply E; reflexivity);
+    destruct (f_html fl); cbn [fst snd]; try discriminate; apply IH.
+Qed.
+
+(* Tokenizer::end answering normally: the EOF token has been delivered and nothing after it *)
+Definition tok_tail (fuel : nat) (m1 : M) : M * sres :=
+  match runF true fuel m1 with
+  | (m3, SSuspend) => match fq_peek (mq m3) with
+                      | None => eof_loopF fuel m3
+                      | Some _ => if f_html fl then (m3, SPanic 5) else eof_loopF fuel m3 end
+  | (m3, SPanic n) => (m3, SPanic n)
+  | (m3, _) => if f_html fl then (m3, SPanic 4) else eof_loopF fuel m3 end.
+Lemma tok_tail_last fuel (m1 : M) : snd (tok_tail fuel m1) = SSuspend -> newest_is_eof (fst (tok_tail fuel m1)).
+Proof.
+  unfold tok_tail. destruct (runF true fuel m1) as [m3 r]. destruct r; cbn [fst snd]; try discriminate;
+    try (destruct (f_html fl); cbn [fst snd]; try discriminate; apply eof_loop_last).
+  destruct (fq_peek (mq m3)); [destruct (f_html fl); cbn [fst snd]; try discriminate|]; apply eof_loop_last.
+Qed.
+
+(* Tokenizer::end answering normally: the EOF token has been delivered and nothing after it *)
+Theorem tok_end_last fuel (m : M) : snd (tok_endF fuel m) = SSuspend -> newest_is_eof (fst (tok_endF fuel m)).
+Proof.
+  unfold tok_end. fold (tok_tail fuel).
+  match goal with |- context [cref ?Y] => destruct (cref Y) as [cr|] end.
+  2:{ apply tok_tail_last. }
+  match goal with |- context [@cr_eof ?a ?b ?c ?d ?e ?f ?g] => destruct (@cr_eof a b c d e f g) as [chars m'] end.
+  match goal with |- context [process_char_ref ?a ?b ?c] => destruct (process_char_ref a b c) as [m1 bad] end.
+  destruct bad; cbn [fst snd]; [discriminate|]. apply tok_tail_last.
+Qed.
 End Consumed.
